@@ -29,6 +29,7 @@ structure TypeDecl where
   props : List Decl
   hasProto : Bool
   protoProto : Owner          -- yaml `prototype.prototype` (absent ⇒ nil)
+  protoClass : String := ""   -- yaml `prototype.class` ("" ⇒ the type's name; prototype.tmpl `class{{or .Class $.Name}}Name`)
   protoObjectClass : String   -- yaml `prototype.objectClass`
   protoValue : String         -- yaml `prototype.value` (a Go variable of global.go:8-42)
   protoPrim : String          -- what that Go value is as a [[PrimitiveValue]] token (global.go:15-33)
@@ -164,9 +165,9 @@ def types : List TypeDecl := [
       .fn "toExponential" (1),
       .fn "toFixed" (1),
       .fn "toPrecision" (1),
-      .fn "toString" (-1),
+      .fn "toString" (1),
       .fn "valueOf" (-1),
-      .fn "toLocaleString" (1)] },
+      .fn "toLocaleString" (-1)] },
   { name := "Math", owner := .Math, protoOwner := .unknown, cls := "Math", objProto := .ObjectPrototype,
     props := [
       .fn "abs" (1),
@@ -176,7 +177,7 @@ def types : List TypeDecl := [
       .fn "asinh" (1),
       .fn "atan" (1),
       .fn "atanh" (1),
-      .fn "atan2" (1),
+      .fn "atan2" (2),
       .fn "cbrt" (1),
       .fn "ceil" (1),
       .fn "cos" (1),
@@ -215,7 +216,7 @@ def types : List TypeDecl := [
       .fn "parse" (1),
       .fn "UTC" (7),
       .fn "now" (-1)],
-    hasProto := true, protoProto := .ObjectPrototype, protoObjectClass := "Object", protoValue := "prototypeValueDate", protoPrim := "num:0000000000000000",
+    hasProto := true, protoProto := .ObjectPrototype, protoObjectClass := "Object", protoValue := "prototypeValueDate", protoPrim := "num:7ff8000000000001",
     protoProps := [
       .obj "constructor" 0o101 .Date,
       .fn "toString" (-1),
@@ -289,7 +290,7 @@ def types : List TypeDecl := [
     props := [
       .num "length" 0o0 0x3ff0000000000000,
       .obj "prototype" 0o0 .EvalErrorPrototype],
-    hasProto := true, protoProto := .ErrorPrototype, protoObjectClass := "Object", protoValue := "nil", protoPrim := "-",
+    hasProto := true, protoProto := .ErrorPrototype, protoClass := "Error", protoObjectClass := "Object", protoValue := "nil", protoPrim := "-",
     protoProps := [
       .obj "constructor" 0o101 .EvalError,
       .str "name" 0o101 "EvalError",
@@ -299,7 +300,7 @@ def types : List TypeDecl := [
     props := [
       .num "length" 0o0 0x3ff0000000000000,
       .obj "prototype" 0o0 .TypeErrorPrototype],
-    hasProto := true, protoProto := .ErrorPrototype, protoObjectClass := "Object", protoValue := "nil", protoPrim := "-",
+    hasProto := true, protoProto := .ErrorPrototype, protoClass := "Error", protoObjectClass := "Object", protoValue := "nil", protoPrim := "-",
     protoProps := [
       .obj "constructor" 0o101 .TypeError,
       .str "name" 0o101 "TypeError",
@@ -309,7 +310,7 @@ def types : List TypeDecl := [
     props := [
       .num "length" 0o0 0x3ff0000000000000,
       .obj "prototype" 0o0 .RangeErrorPrototype],
-    hasProto := true, protoProto := .ErrorPrototype, protoObjectClass := "Object", protoValue := "nil", protoPrim := "-",
+    hasProto := true, protoProto := .ErrorPrototype, protoClass := "Error", protoObjectClass := "Object", protoValue := "nil", protoPrim := "-",
     protoProps := [
       .obj "constructor" 0o101 .RangeError,
       .str "name" 0o101 "RangeError",
@@ -319,7 +320,7 @@ def types : List TypeDecl := [
     props := [
       .num "length" 0o0 0x3ff0000000000000,
       .obj "prototype" 0o0 .ReferenceErrorPrototype],
-    hasProto := true, protoProto := .ErrorPrototype, protoObjectClass := "Object", protoValue := "nil", protoPrim := "-",
+    hasProto := true, protoProto := .ErrorPrototype, protoClass := "Error", protoObjectClass := "Object", protoValue := "nil", protoPrim := "-",
     protoProps := [
       .obj "constructor" 0o101 .ReferenceError,
       .str "name" 0o101 "ReferenceError",
@@ -329,7 +330,7 @@ def types : List TypeDecl := [
     props := [
       .num "length" 0o0 0x3ff0000000000000,
       .obj "prototype" 0o0 .SyntaxErrorPrototype],
-    hasProto := true, protoProto := .ErrorPrototype, protoObjectClass := "Object", protoValue := "nil", protoPrim := "-",
+    hasProto := true, protoProto := .ErrorPrototype, protoClass := "Error", protoObjectClass := "Object", protoValue := "nil", protoPrim := "-",
     protoProps := [
       .obj "constructor" 0o101 .SyntaxError,
       .str "name" 0o101 "SyntaxError",
@@ -339,7 +340,7 @@ def types : List TypeDecl := [
     props := [
       .num "length" 0o0 0x3ff0000000000000,
       .obj "prototype" 0o0 .URIErrorPrototype],
-    hasProto := true, protoProto := .ErrorPrototype, protoObjectClass := "Object", protoValue := "nil", protoPrim := "-",
+    hasProto := true, protoProto := .ErrorPrototype, protoClass := "Error", protoObjectClass := "Object", protoValue := "nil", protoPrim := "-",
     protoProps := [
       .obj "constructor" 0o101 .URIError,
       .str "name" 0o101 "URIError",
@@ -425,8 +426,8 @@ def Decl.slot : Decl → Slot
   | .str _ m s => ⟨.str s, attrs m⟩
   | .undef _ m => ⟨.undef, attrs m⟩
 
-/-- otto.go:247 `o.Set("console", …)`: an ordinary [[Put]] creating {W:true,E:true,C:true} -/
-def consoleEntry : String × Slot := ("console", ⟨.obj .Object, attrs 0o111⟩)
+/-- otto.go `New()`: `globalObject.defineProperty("console", …, 0o101, false)` -/
+def consoleEntry : String × Slot := ("console", ⟨.obj .Object, attrs 0o101⟩)
 
 def propsOf (ds : List Decl) : Props := ds.map (fun d => (d.name, d.slot))
 
@@ -437,6 +438,9 @@ def table : List (Owner × Props) :=
     (if t.hasProto then [(t.protoOwner, propsOf t.protoProps)] else []))
 
 /-! ### Go-level wiring: "<mode, octal>:<nativeFunctionObject.name>:<Go name of call>:<Go name of construct>" -/
+
+/-- prototype.tmpl: `class: class{{or .Class $.Name}}Name` -/
+def TypeDecl.protoCls (t : TypeDecl) : String := if t.protoClass = "" then t.name else t.protoClass
 
 /-- helpers.go `ucfirst` (ASCII) -/
 def ucfirst (s : String) : String :=
@@ -462,7 +466,7 @@ def bindsOf (ty : String) (ds : List Decl) : Facts := ds.map (fun d => (d.name, 
 
 def bindTable : List (Owner × Facts) :=
   types.flatMap (fun t =>
-    [(t.owner, bindsOf t.name t.props ++ (if t.owner = .global then [("console", "111:-:-:-")] else []))] ++
+    [(t.owner, bindsOf t.name t.props ++ (if t.owner = .global then [("console", "101:-:-:-")] else []))] ++
     (if t.hasProto then [(t.protoOwner, bindsOf t.name t.protoProps)] else []))
 
 /-- the objects held in rt.global themselves: "<class field>:<nativeFunctionObject.name>:<call>:<construct>"
@@ -472,14 +476,14 @@ def selfTable : List (Owner × String) :=
     (if t.owner = .global then []
      else if t.cls = "" then [(t.owner, "Function:" ++ t.name ++ ":builtin" ++ t.name ++ ":builtinNew" ++ t.name)]
      else [(t.owner, t.cls ++ ":-:-:-")]) ++
-    (if t.hasProto then [(t.protoOwner, if t.name = "Function" then "Function::closure:-" else t.name ++ ":-:-:-")] else []))
+    (if t.hasProto then [(t.protoOwner, if t.name = "Function" then "Function::closure:-" else t.protoCls ++ ":-:-:-")] else []))
 
 /-! ### definition.tmpl / prototype.tmpl: the object-level facts -/
 def ownerFacts : List (Owner × Facts) :=
   types.flatMap (fun t =>
     [(t.owner,
       if t.owner = .global then
-        [("typeof", "object"), ("ext", "x"), ("forin", "console")]
+        [("typeof", "object"), ("ext", "x"), ("forin", "-")]
       else if t.cls = "" then
         [("typeof", "function"), ("class", "Function"), ("proto", t.objProto.path), ("ext", "x"), ("forin", "-")]
       else
@@ -487,7 +491,7 @@ def ownerFacts : List (Owner × Facts) :=
     (if t.hasProto then
       [(t.protoOwner,
         [("typeof", if t.name = "Function" then "function" else "object"),
-         ("class", t.name),                                          -- prototype.tmpl: `class: class{{$.Name}}Name`
+         ("class", t.protoCls),
          ("proto", t.protoProto.path),
          ("ext", "x"), ("forin", "-")] ++ (if t.protoPrim = "-" then [] else [("prim", t.protoPrim)]))]
      else []))
@@ -496,10 +500,9 @@ def entries : List (Owner × String × Slot) := Spec.flatten table
 
 /-! ### for-in and links as otto's constructors build them -/
 
-/-- type_error.go:3-24 / global.go:166-188: `message` (0o111), and for plain Error also `name` (0o111), are enumerable own
-    properties of every error object; everything else as specified -/
-def forIn : Facts := Spec.forIn.map (fun (k, v) =>
-  if k = "error" then (k, "message,name") else if k = "typeerror" ∨ k = "caught" then (k, "message") else (k, v))
+/-- type_error.go:3-30 / global.go: `message` (and `name` of a plain Error) are defined with mode 0o101 on every error
+    object, so for-in shows nothing the user did not put there -/
+def forIn : Facts := Spec.forIn
 
 def links : Facts := Spec.links
 
@@ -541,29 +544,8 @@ def devDyn (k : DynKind) (f : DynField) : String :=
 
 /-- `entry <owner> <prop>` -/
 def devEntry (owner : Owner) (prop : String) : String :=
-  if owner = .Math ∧ prop = "atan2" then "length_Math_atan2"
-  else if owner = .NumberPrototype ∧ prop = "toString" then "length_Number_toString"
-  else if owner = .NumberPrototype ∧ prop = "toLocaleString" then "length_Number_toLocaleString"
-  else if owner = .RegExpPrototype ∧ (prop = "source" ∨ prop = "global" ∨ prop = "ignoreCase" ∨ prop = "multiline" ∨ prop = "lastIndex")
+  if owner = .RegExpPrototype ∧ (prop = "source" ∨ prop = "global" ∨ prop = "ignoreCase" ∨ prop = "multiline" ∨ prop = "lastIndex")
     then "regexp_proto_props"
   else "-"
-
-def nativeErrorProtos : List Owner :=
-  [.EvalErrorPrototype, .RangeErrorPrototype, .ReferenceErrorPrototype, .SyntaxErrorPrototype, .TypeErrorPrototype, .URIErrorPrototype]
-
-/-- `own <owner> <field>` -/
-def devOwn (owner : Owner) (field : String) : String :=
-  if owner = .DatePrototype ∧ field = "prim" then "date_proto_value"
-  else if field = "class" ∧ nativeErrorProtos.contains owner then "nativeerror_proto_class"
-  else if owner = .global ∧ field = "forin" then "console_enumerable"
-  else "-"
-
-/-- `extra <owner> <prop>` -/
-def devExtra (owner : Owner) (prop : String) : String :=
-  if owner = .global ∧ prop = "console" then "console_enumerable" else "-"
-
-/-- `forin <subject>` -/
-def devForIn (subject : String) : String :=
-  if subject = "error" ∨ subject = "typeerror" ∨ subject = "caught" then "error_instance_enumerable" else "-"
 
 end OttoVerif.C14.Model
